@@ -731,3 +731,67 @@ func ptInv(buf []byte, p *PTokParam, i int, flags POptFlags) bool {
 		((p.state != vpFSep && p.state != vpFNxt) || ptValDone(buf, p, flags)) &&
 		(p.state != vpFSep || (p.Val.Len > 0 && fend(p.All) <= i && lwsOnly(buf, fend(p.All), i)))
 }
+
+// ---- URI parameter / header lists (C17) ----
+
+// uparTypeSpec: the documented classification of a URI parameter name (case-insensitive)
+func uparTypeSpec(n []byte) URIParamF {
+	if cieq(n, []byte("transport")) {
+		return URIParamTransportF
+	}
+	if cieq(n, []byte("user")) {
+		return URIParamUserF
+	}
+	if cieq(n, []byte("method")) {
+		return URIParamMethodF
+	}
+	if cieq(n, []byte("ttl")) {
+		return URIParamTTLF
+	}
+	if cieq(n, []byte("maddr")) {
+		return URIParamMaddrF
+	}
+	if cieq(n, []byte("lr")) {
+		return URIParamLRF
+	}
+	return URIParamOtherF
+}
+
+func curUPar(l *URIParamsLst) *URIParam {
+	if l.N < len(l.Params) {
+		return &l.Params[l.N]
+	}
+	return &l.tmp
+}
+
+func curUHdr(l *URIHdrsLst) *URIHdr {
+	if l.N < len(l.Hdrs) {
+		return &l.Hdrs[l.N]
+	}
+	return &l.tmp
+}
+
+// uparOK: a parameter list as the list parser leaves it when suspended at offs: the slot in progress holds
+// a suspended token-parameter state, the slots after it (and tmp while it is not in use) are zero
+func uparOK(l *URIParamsLst, buf []byte, offs int, flags POptFlags) bool {
+	return 0 <= l.N && l.N < 1<<40 && blockSep(l, l.Params) &&
+		(l.N >= len(l.Params) || uriParamZero(&l.tmp)) &&
+		ptOK(&curUPar(l).Param, offs) && curUPar(l).Param.state != vpFIN && curUPar(l).Param.state != vpInitNxtVal &&
+		forall(l.N+1, len(l.Params), func(k int) bool { return uriParamZero(&l.Params[k]) })
+}
+
+func uhdrOK(l *URIHdrsLst, buf []byte, offs int, flags POptFlags) bool {
+	return 0 <= l.N && l.N < 1<<40 && blockSep(l, l.Hdrs) &&
+		(l.N >= len(l.Hdrs) || uriHdrZero(&l.tmp)) &&
+		ptOK((*PTokParam)(curUHdr(l)), offs) && curUHdr(l).state != vpFIN && curUHdr(l).state != vpInitNxtVal &&
+		forall(l.N+1, len(l.Hdrs), func(k int) bool { return uriHdrZero(&l.Hdrs[k]) })
+}
+
+// listMeasure: termination measure of the list wrappers: the bytes left, and one extra step for the first
+// value (which may complete without consuming anything when it was suspended after its separator)
+func listMeasure(left, vNo int) int {
+	if vNo == 0 {
+		return 2*left + 1
+	}
+	return 2 * left
+}
